@@ -57,28 +57,45 @@ func swap_BANG(ctx context.Context, a ...MalType) (MalType, error) {
 		return nil, errors.New("swap! called with non-atom")
 	}
 	atm := a[0].(*Atom)
-	atm.Mutex.Lock()
-	defer atm.Mutex.Unlock()
-	args := []MalType{atm.Val}
-	verifAt("swap.read", atm)
 	f := a[1]
-	args = append(args, a[2:]...)
-	res, e := Apply(ctx, f, args)
-	verifAt("swap.applied", atm)
-	if e != nil {
-		return nil, e
+	// The update function runs with NO lock held (it may itself read or update atoms,
+	// including this one); its result is installed only if the atom has not changed
+	// meanwhile, otherwise the function is applied again to the new value.
+	for {
+		atm.Mutex.RLock()
+		args := []MalType{atm.Val}
+		version := atm.version
+		verifAt("swap.read", atm)
+		atm.Mutex.RUnlock()
+		args = append(args, a[2:]...)
+		res, e := Apply(ctx, f, args)
+		verifAt("swap.applied", atm)
+		if e != nil {
+			return nil, e
+		}
+		atm.Mutex.Lock()
+		if atm.version == version {
+			atm.Set(res)
+			verifAt("swap.set", atm)
+			atm.Mutex.Unlock()
+			return res, nil
+		}
+		atm.Mutex.Unlock()
+		select {
+		case <-ctx.Done():
+			return nil, errors.New("timeout while evaluating expression")
+		default:
+		}
 	}
-	atm.Set(res)
-	verifAt("swap.set", atm)
-	return res, nil
 }
 
 // Atoms
 type Atom struct {
-	Mutex  sync.RWMutex
-	Val    MalType
-	Meta   MalType
-	Cursor *Position
+	Mutex   sync.RWMutex
+	version uint64 // incremented by every Set; guarded by Mutex
+	Val     MalType
+	Meta    MalType
+	Cursor  *Position
 }
 
 func (a *Atom) Type() string {
@@ -87,6 +104,7 @@ func (a *Atom) Type() string {
 
 func (a *Atom) Set(val MalType) MalType {
 	a.Val = val
+	a.version++
 	return a
 }
 
